@@ -189,3 +189,12 @@ Proof.
   split; [exact resolve_block | intros; apply refines_spec].
 Qed.
 Print Assumptions C08_inherited_actions.
+
+(* an action list naming several disruptive actions (pass / block / deny / allow with any scope) compiles
+   to one that keeps every other action in order and exactly one disruptive action: the last one
+   written, with ITS OWN parameter *)
+Theorem C08_last_disruptive_wins : forall src,
+  filter not_dis (fl_collapse src) = filter not_dis src /\
+  filter fl_sact_is_dis (fl_collapse src) = match fl_last_dis src with Some d => [d] | None => [] end.
+Proof. exact collapse_spec. Qed.
+Print Assumptions C08_last_disruptive_wins.
